@@ -7,13 +7,18 @@
    PROVED PART (storage layer, L1): on every reachable storage state (`tiles s rg`: the file is tiled by the
    regions rg) backup + open, drop + open of a committed file and optimize_storage preserve the map
    index |-> bytes of live records EXACTLY (optimize only drops the free regions), and the byte-level reopen of a
-   cleanly closed file is the identity (C01 with an empty log).  The collections above (vectors, maps, graph,
-   indexes) and DbImpl keep NO state of their own between operations except cached lengths/capacities reloaded
-   from those records, so equal records give equal query results: that step is NOT proved as a theorem (it
-   would be a verified L2/L3 stack); it is checked on every run by executing each maintenance operation at random
-   points of generated histories on DbFile, Db and the DbAny kinds and comparing the full ORDERED dump plus a
-   fixed battery of searches (result order included) before and after, and by continuing the history on the
-   maintained database side by side with the in-memory one. *)
+   cleanly closed file is the identity (C01 with an empty log).
+   L2 (round 2, below): every storage-backed collection, for every history with reloads and maintenance.
+   L3 (round 4, last section): the WHOLE database as a relation `stored_db` over the record map, assembled from the L2
+   invariants; a stored database LOADS to itself (C05_db_reload), maintenance of the storage keeps it stored and the
+   loaded database identical (C05_db_maintenance), and every order-independent read-only query returns the same
+   result afterwards (C05_db_queries_after_reopen).
+   STILL NOT A THEOREM (hence the property stays partial): that every MUTATION of DbImpl leaves the database stored
+   (C05_db_operations_preserve_stored_db, spelled out in the L3 section) — i.e. "after any history of queries".  It is
+   checked on every run: the extracted loader on the raw records of real database files against the reopened
+   database, and each maintenance operation at random points of generated histories on DbFile, Db and the DbAny kinds
+   with the full ORDERED dump plus a fixed battery of searches (result order included) before and after, the history
+   continuing on the maintained database side by side with the in-memory one. *)
 From Agdb Require Import FileWal FileWalProofs.
 From Agdb Require Import Bytes Records RecordsProofs RecordsTableProofs Storage StorageSpec
   StorageLayout StorageWp StorageOps StorageOps2 StorageRefine StorageReopen StorageOptimize StorageProofs StorageSim.
@@ -467,3 +472,31 @@ Example C05_db_sample :
   sx_store_mem = sx_store.
 Proof. split; [exact sx_db_is|exact sx_sample]. Qed.
 Print Assumptions C05_db_sample.
+
+(* THE LINK TO C19: load_db reads a table by scanning its slots; the code looks an alias up by PROBING (MapImpl::value =
+   MultiMapImpl::value of multi_map.rs, OpenMap.v).  If the two stored alias tables satisfy the invariant C19 proves of
+   every reachable table (PInv — C19_table_refines_multimap, C19_map_unique_keys; for EVERY hash function and minimum
+   capacity), the probing lookups on the stored tables return exactly the model's lookups: DbImpl::db_id(alias) =
+   imap_value, DbImpl::alias(id) = imap_key on the reloaded database (from C19_lookup_finds_exactly_stored).  stored_db
+   itself does not demand PInv (the loader does not need it); that the tables of a real file satisfy it is part of the
+   missing link above (it is what the mutations maintain).  Not stated for the id tables of the indexes: C19 needs a key
+   test deciding Leibniz equality, which dbv_eqb is on canonical values only. *)
+From Agdb Require Import OpenMap OpenMapRefineStep CollMapHist StoredDbProbe.
+
+Theorem C05_db_alias_lookups_by_probing :
+  forall (hs : bytes -> N) (hi : Z -> N) (mincap : nat) (rv : om_revision) g root d w,
+    fix_iter_finished rv = true ->
+    stored_db_w g root d w ->
+    PInv bytes Z hs mincap (ct_omap bytes Z (mw_t (sw_a1 w))) ->
+    PInv Z bytes hi mincap (ct_omap Z bytes (mw_t (sw_a2 w))) ->
+    (forall a, value bytes Z bytes_eqb hs (ct_omap bytes Z (mw_t (sw_a1 w))) a = Done (imap_value (aliases d) a)) /\
+    (forall i, value Z bytes Z.eqb hi (ct_omap Z bytes (mw_t (sw_a2 w))) i = Done (imap_key (aliases d) i)).
+Proof. exact sd_alias_lookups_by_probing. Qed.
+Print Assumptions C05_db_alias_lookups_by_probing.
+
+(* non-vacuity: the alias tables of the example database (2 slots; hashes sending "root" to slot 1 and id 1 to slot 0) *)
+Example C05_db_sample_probe :
+  (forall a, value bytes Z bytes_eqb (fun _ => 1) (ct_omap bytes Z sx_t1) a = Done (imap_value (aliases sx_db) a)) /\
+  (forall i, value Z bytes Z.eqb (fun _ => 0) (ct_omap Z bytes sx_t2) i = Done (imap_key (aliases sx_db) i)).
+Proof. exact sx_probe. Qed.
+Print Assumptions C05_db_sample_probe.
